@@ -42,7 +42,7 @@ BUDGET = {
     "thorough": {"shards": 16, "examples": 25000},
 }
 
-ZOO_NAMES = schemas.GROUP_V + schemas.MARK_VARIANTS * 3 + ["structure"]
+ZOO_NAMES = schemas.GROUP_V + schemas.MARK_VARIANTS * 3 + ["structure", "inline_box", "inline_box"]
 KINDS = [
     "add_mark",
     "add_mark",
